@@ -1,4 +1,5 @@
 // seams.cpp — allocator seam (link-time --wrap), event clock, coverage / preemption hook, emergency exits.
+#include <cerrno>
 #include "core.hpp"
 #include <unistd.h>
 #include <signal.h>
@@ -137,13 +138,18 @@ extern "C" void __wrap_free(void *p) {
 // (a function of mode and seed only): a pattern that varied with the position would make what an uninitialised read sees depend on
 // the caller's stack depth and on ASLR, i.e. differ between the original run, its in-process repeat and a fresh-process replay.
 static unsigned char scribble_byte(int mode, uint64_t seed) { uint64_t x = seed; return mode == 0 ? 0x00 : mode == 1 ? 0xFF : mode == 2 ? 0xAA : mode == 3 ? 0x7f : (unsigned char)(splitmix64(x) >> 24); }
+// errno is ambient per-thread state of the same kind: whatever an unrelated earlier call left there. The library may only interpret it
+// after clearing it itself (vorbisfile.c _get_data); the seam leaves a seeded stale value before every API call.
+static void errno_scribble(int mode, uint64_t seed) { static const int stale[] = {0, EIO, EINTR, ENOENT, EAGAIN, EBADF, ENOMEM, 0}; uint64_t x = seed ^ 0xE22; errno = mode == 0 ? 0 : stale[splitmix64(x) % 8]; }
 __attribute__((noinline)) void stack_scribble(int mode, uint64_t seed) {
+  errno_scribble(mode, seed);
   volatile unsigned char buf[192 * 1024];
   memset((void *)buf, scribble_byte(mode, seed), sizeof buf);
   __asm__ volatile("" ::"r"(buf) : "memory");
 }
 // cheap variant for calls repeated tens of thousands of times in one run (the decode path keeps its large arrays on the heap)
 __attribute__((noinline)) void stack_scribble_small(int mode, uint64_t seed) {
+  errno_scribble(mode, seed);
   volatile unsigned char buf[24 * 1024];
   memset((void *)buf, scribble_byte(mode, seed), sizeof buf);
   __asm__ volatile("" ::"r"(buf) : "memory");
